@@ -82,6 +82,21 @@ def coq_case(case, obs, exact):
     )
 
 
+def replay_case(case):
+    """Re-run one case on implementation and model; True when they still disagree."""
+    print("expression:", nc.tree_str(case["tree"], case["modes"]), " modes:", "".join(case["modes"]), " kind:", case["kind"])
+    r = _impl_worker(case)
+    if not r["ok"]:
+        print("implementation raised:", r["err"])
+        return True
+    obs = {tuple(k): [None if v is None else tuple(v) for v in vals] for k, vals in r["obs"]}
+    for k, v in obs.items():
+        print("  impl term", k, "->", ["undef" if x is None else "%s%+si" % x for x in v])
+    bad = core.coq_eval_cases("k_nof_replay", nc.COQ_HEADER, [coq_case(case, obs, r["exact"])])
+    print("model agrees" if not bad else "model DISAGREES")
+    return bool(bad)
+
+
 def nontrivial_key(case):
     """A case is non-trivial if it multiplies, has >= 2 operator leaves, and is not a duplicate."""
     ops = nc.tree_ops(case["tree"])
@@ -89,7 +104,7 @@ def nontrivial_key(case):
 
 
 def tie_nof(ctx, ncases=None):
-    n = ncases or ctx.n(60, 1500)
+    n = ncases or ctx.n(150, 3000)
     cases = [gen_case(ctx.rng) for _ in range(n)]
     # bound the size: sympy's cost explodes with binary modes (linearisation doubles coefficients)
     cases = [c for c in cases if nc.tree_size(c["tree"]) <= 40]
